@@ -52,6 +52,7 @@ type verifC06Eval struct {
 type verifC06Snap struct {
 	kv       map[string]bool
 	nodes    map[string]bool
+	nodeIDs  map[string]string
 	inst     map[string]string // peer|node|id -> service name
 	svcCount map[string]int    // peer|service name -> instances
 	nodeSvcs map[string]int    // peer|node -> instances
@@ -62,7 +63,7 @@ type verifC06Snap struct {
 }
 
 func verifC06TakeSnap(s *state.Store) *verifC06Snap {
-	sn := &verifC06Snap{kv: map[string]bool{}, nodes: map[string]bool{}, inst: map[string]string{}, svcCount: map[string]int{},
+	sn := &verifC06Snap{kv: map[string]bool{}, nodes: map[string]bool{}, nodeIDs: map[string]string{}, inst: map[string]string{}, svcCount: map[string]int{},
 		nodeSvcs: map[string]int{}, checks: map[string]string{}, ces: map[string]bool{}, pqs: map[string]bool{}, links: map[string]bool{}}
 	_ = s.WalkAllTables(func(table string, item interface{}) bool {
 		switch table {
@@ -71,6 +72,7 @@ func verifC06TakeSnap(s *state.Store) *verifC06Snap {
 		case "nodes":
 			n := item.(*structs.Node)
 			sn.nodes[n.PeerName+"|"+strings.ToLower(n.Node)] = true
+			sn.nodeIDs[n.PeerName+"|"+strings.ToLower(n.Node)] = string(n.ID)
 		case "services":
 			x := item.(*structs.ServiceNode)
 			sn.inst[x.PeerName+"|"+strings.ToLower(x.Node)+"|"+x.ServiceID] = x.ServiceName
@@ -105,6 +107,7 @@ type verifC06Machine struct {
 	deleted map[string]bool
 	ops     []*vs.Op
 	loops   int
+	confirmed bool
 }
 
 var verifC06PanelCache []*verifC06Query
@@ -246,7 +249,10 @@ func verifC06LinkRemovalExplains(q *verifC06Query, removed []string) bool {
 const (
 	verifC06KeyCheckMoved   = "C06/check-reassigned-old-service-not-notified"
 	verifC06KeyPeerDump     = "C06/peer-service-dump-reads-local-index"
-	verifC06KeyRootTree     = "C06/kv-delete-whole-tree-old-tombstone-shadows-index"
+	verifC06KeyTreeDelete   = "C06/kv-delete-tree-tombstone-misses-deeper-prefix"
+	verifC06KeyConnEmptied  = "C06/connect-set-emptied-without-extinction-index-regress"
+	verifC06KeyConnExtinct  = "C06/connect-result-name-extinct-while-others-remain"
+	verifC06KeyNodeIDGone   = "C06/node-lookup-by-id-after-id-removed-index-regress"
 	verifC06KeyCatalogConn  = "C06/catalog-connect-index-ignores-proxy-services"
 )
 
@@ -289,10 +295,52 @@ func verifC06RootCause(q *verifC06Query, fk string, op *vs.Op, snapB, snapA *ver
 	if q.Fam == "ServiceDumpPeer" && strings.Contains(q.Name, "useKind=false") && fk != "unchanged-index-regress" {
 		return verifC06KeyPeerDump
 	}
-	// (4) delete-tree of the whole keyspace writes no tombstone; a listing under a prefix that still has an OLDER
-	// tombstone reports that tombstone's index
-	if q.KV && q.Fam != "KVSGet" && indexFail && len(snapB.kv) > 0 && len(snapA.kv) == 0 && verifC06DeletesWholeTree(op) {
-		return verifC06KeyRootTree
+	// (4) a tree delete of prefix P writes ONE tombstone keyed P (none at all for P = ""); a listing of a strictly
+	// deeper prefix does not match it (the graveyard is searched by "tombstone key has the listed prefix") and falls
+	// back to an older tombstone under the listed prefix
+	if q.KV && q.Fam != "KVSGet" && indexFail && verifC06TreeDeleteAbove(op, q.Arg) {
+		return verifC06KeyTreeDelete
+	}
+	// (6) lookup of a node by its ID after a registration without ID stripped the ID from the (still existing) node:
+	// nothing is found and the node-extinction index, which only moves when a node is deleted, is reported
+	if q.Fam == "NodeServices" && indexFail && len(q.Arg) == 36 {
+		had, has := false, false
+		for k, id := range snapB.nodeIDs {
+			had = had || (id == q.Arg && strings.HasPrefix(k, "|"))
+		}
+		for k, id := range snapA.nodeIDs {
+			has = has || (id == q.Arg && strings.HasPrefix(k, "|"))
+		}
+		if had && !has && len(snapA.nodes) >= len(snapB.nodes) {
+			return verifC06KeyNodeIDGone
+		}
+	}
+	if (q.Fam == "ConnectServiceNodes" || q.Fam == "CheckConnectServiceNodes") && indexFail && fk != "unchanged-index-regress" {
+		peer := ""
+		if strings.Contains(q.Name, "peer=peerA") {
+			peer = "peerA"
+		}
+		var extinct []string
+		for k, n := range snapB.svcCount {
+			if n > 0 && snapA.svcCount[k] == 0 && strings.HasPrefix(k, peer+"|") {
+				extinct = append(extinct, strings.TrimPrefix(k, peer+"|"))
+			}
+		}
+		// (7) the last instance left the connect set of the service WITHOUT any service name going extinct (a
+		// connect-native instance registered again without the flag, a proxy registered again for another
+		// destination): the empty result reports the last-extinction index, which did not move
+		if a.Res == "{}" && b.Res != "{}" && len(extinct) == 0 {
+			return verifC06KeyConnEmptied
+		}
+		// (8) a service name of the connect result (a proxy name) lost its last instance while instances under other
+		// names (a gateway, another proxy name) remain: the extinction index is only consulted for EMPTY results
+		if a.Res != "{}" && q.Fam == "CheckConnectServiceNodes" {
+			for _, name := range extinct {
+				if strings.Contains(b.Res, `"Service":"`+name+`"`) && !strings.Contains(a.Res, `"Service":"`+name+`"`) {
+					return verifC06KeyConnExtinct
+				}
+			}
+		}
 	}
 	// (5) Catalog connect lookup reports the index of the TARGET service name only, although its result consists of
 	// proxies / gateways registered under other names
@@ -312,13 +360,15 @@ func verifC06RootCause(q *verifC06Query, fk string, op *vs.Op, snapB, snapA *ver
 	return ""
 }
 
-func verifC06DeletesWholeTree(op *vs.Op) bool {
+// verifC06TreeDeleteAbove: the write contains a tree delete of a proper prefix of the listed prefix.
+func verifC06TreeDeleteAbove(op *vs.Op, listed string) bool {
+	above := func(p string) bool { return len(p) < len(listed) && strings.HasPrefix(listed, p) }
 	switch op.Kind {
 	case vs.KVDeleteTree:
-		return op.P.KV.Key == ""
+		return above(op.P.KV.Key)
 	case vs.Txn:
 		for _, t := range op.P.Txn {
-			if t.KV != nil && t.KV.Verb == api.KVDeleteTree && t.KV.DirEnt.Key == "" {
+			if t.KV != nil && t.KV.Verb == api.KVDeleteTree && above(t.KV.DirEnt.Key) {
 				return true
 			}
 		}
@@ -387,6 +437,7 @@ func (m *verifC06Machine) step(op *vs.Op) {
 			if rc := verifC06RootCause(q, fk, op, snapB, snapA, removed, b, a); rc != "" {
 				key = rc
 				c.Label("known:" + strings.TrimPrefix(rc, "C06/"))
+				c.Label("known:" + strings.TrimPrefix(rc, "C06/") + "@" + q.Fam + ":" + fk)
 			}
 			detail := fmt.Sprintf("%s around %q (step %d, raft index %d, result %s): reported index %d -> %d, result changed=%v, watch fired=%v, removed gateway links=%v",
 				q.Name, op.Desc, len(m.ops), op.Idx, res, i0, i1, changed, fired, removed)
@@ -569,12 +620,35 @@ func TestVerifC06Blocking(t *testing.T) {
 	})
 }
 
-// verifC06Witnesses: fixed minimal histories of the known findings.
-func verifC06Witnesses() map[string][]*vs.Op {
-	gwReg := func(idx uint64) *vs.Op {
-		return vs.NewRegister(idx, &structs.RegisterRequest{Datacenter: "dc1", Node: "n1", ID: vs.NodeIDs["n1"], Address: "10.0.0.1",
-			Service: &structs.NodeService{Kind: structs.ServiceKindTerminatingGateway, Service: "term-gw", ID: "term-gw-1", Port: 8444,
-				Weights: &structs.Weights{Passing: 1, Warning: 1}}})
+// verifC06Witness is a fixed minimal history of one known finding.
+type verifC06Witness struct {
+	key string
+	ops []*vs.Op
+}
+
+func verifC06Witnesses() map[string]verifC06Witness {
+	w := &structs.Weights{Passing: 1, Warning: 1}
+	reg := func(idx uint64, node, peer string, svc *structs.NodeService, checks ...*structs.HealthCheck) *vs.Op {
+		req := &structs.RegisterRequest{Datacenter: "dc1", Node: node, ID: vs.NodeIDs[node], Address: "10.0.0." + node[1:], PeerName: peer, Service: svc}
+		if svc != nil {
+			svc.PeerName = peer
+			svc.Weights = w
+		}
+		for _, c := range checks {
+			c.Node, c.PeerName, c.Name = node, peer, string(c.CheckID)
+			req.Checks = append(req.Checks, c)
+		}
+		return vs.NewRegister(idx, req)
+	}
+	gw := func() *structs.NodeService {
+		return &structs.NodeService{Kind: structs.ServiceKindTerminatingGateway, Service: "term-gw", ID: "term-gw-1", Port: 8444}
+	}
+	plain := func(name string) *structs.NodeService {
+		return &structs.NodeService{Service: name, ID: name + "-1", Port: 8080}
+	}
+	proxy := func(dst string) *structs.NodeService {
+		return &structs.NodeService{Kind: structs.ServiceKindConnectProxy, Service: dst + "-proxy", ID: dst + "-proxy-1", Port: 20000,
+			Proxy: structs.ConnectProxyConfig{DestinationServiceName: dst}}
 	}
 	tg := func(svcs ...string) *structs.TerminatingGatewayConfigEntry {
 		e := &structs.TerminatingGatewayConfigEntry{Kind: structs.TerminatingGateway, Name: "term-gw"}
@@ -584,19 +658,65 @@ func verifC06Witnesses() map[string][]*vs.Op {
 		_ = e.Normalize()
 		return e
 	}
-	return map[string][]*vs.Op{
+	native := plain("web")
+	native.Connect.Native = true
+	noID := reg(12, "n1", "", nil)
+	noID.P.Reg.ID = ""
+	noID.Desc = ""
+	noID.Seal()
+	return map[string]verifC06Witness{
 		// DESIGN §7 H: CheckConnectServiceNodes(db) 1 node @12 -> 0 nodes @11
-		"witness-gateway-entry-delete": {
-			gwReg(11),
+		"witness-gateway-entry-delete": {verifC06KeyGatewayLink, []*vs.Op{
+			reg(11, "n1", "", gw()),
 			vs.NewConfig(vs.ConfigSet, 12, structs.ConfigEntryUpsert, tg("db")),
 			vs.NewConfig(vs.ConfigDelete, 14, structs.ConfigEntryDelete, tg()),
-		},
+		}},
 		// same root cause through an update that drops the link
-		"witness-gateway-entry-update": {
-			gwReg(11),
+		"witness-gateway-entry-update": {verifC06KeyGatewayLink, []*vs.Op{
+			reg(11, "n1", "", gw()),
 			vs.NewConfig(vs.ConfigSet, 12, structs.ConfigEntryUpsert, tg("db")),
 			vs.NewConfig(vs.ConfigSet, 14, structs.ConfigEntryUpsert, tg("web")),
-		},
+		}},
+		// check c1 of web-1 registered again as a check of api-1: CheckServiceNodes(web) loses it, index 11 -> 11, nobody woken
+		"witness-check-reassigned": {verifC06KeyCheckMoved, []*vs.Op{
+			reg(11, "n1", "", plain("web"), &structs.HealthCheck{CheckID: "c1", Status: api.HealthPassing, ServiceID: "web-1"}),
+			reg(12, "n1", "", plain("api"), &structs.HealthCheck{CheckID: "c1", Status: api.HealthPassing, ServiceID: "api-1"}),
+		}},
+		// imported service appears: ServiceDump(peer=peerA) 0 -> 1 node, index 1 -> 1, nobody woken
+		"witness-peer-service-dump": {verifC06KeyPeerDump, []*vs.Op{
+			reg(11, "n1", "peerA", plain("web")),
+		}},
+		// KVSList("a/b/"): [a/b/c@13] index 13 -> [] index 12
+		"witness-kv-delete-tree": {verifC06KeyTreeDelete, []*vs.Op{
+			vs.NewKV(vs.KVSet, 11, "a/b/c", []byte("v1"), 0, 0, ""),
+			vs.NewKV(vs.KVDelete, 12, "a/b/c", nil, 0, 0, ""),
+			vs.NewKV(vs.KVSet, 13, "a/b/c", []byte("v2"), 0, 0, ""),
+			vs.NewKV(vs.KVDeleteTree, 14, "a/", nil, 0, 0, ""),
+		}},
+		// ConnectServiceNodes(web): [] index 11 -> [web-proxy-1] index 11
+		"witness-catalog-connect": {verifC06KeyCatalogConn, []*vs.Op{
+			reg(11, "n1", "", plain("web")),
+			reg(12, "n1", "", proxy("web")),
+		}},
+		// NodeServices(<id of n1>): node + services, index 11 -> nothing, index 1
+		"witness-node-id-removed": {verifC06KeyNodeIDGone, []*vs.Op{
+			reg(11, "n1", "", plain("web")),
+			noID,
+		}},
+		// CheckConnectServiceNodes(web): [web-1 native] index 13 -> [] index 12 (the extinction of api)
+		"witness-connect-set-emptied": {verifC06KeyConnEmptied, []*vs.Op{
+			reg(11, "n1", "", plain("api")),
+			vs.NewDereg(vs.DeregService, 12, "n1", "api-1", ""),
+			reg(13, "n1", "", native),
+			reg(14, "n1", "", plain("web")),
+		}},
+		// CheckConnectServiceNodes(web): [web-proxy-1, term-gw-1] index 13 -> [term-gw-1] index 12
+		"witness-connect-name-extinct": {verifC06KeyConnExtinct, []*vs.Op{
+			reg(11, "n1", "", gw()),
+			vs.NewConfig(vs.ConfigSet, 12, structs.ConfigEntryUpsert, tg("web")),
+			reg(13, "n2", "", proxy("web")),
+			vs.NewDereg(vs.DeregService, 14, "n2", "web-proxy-1", ""),
+		}},
 	}
 }
 
@@ -621,10 +741,11 @@ func TestVerifC06Replay(t *testing.T) {
 		for _, name := range names {
 			c := rec.NewCase()
 			c.Label("witness:" + name)
-			verifC06Run(t, c, feed(ws[name]))
-			if !c.HasLabel("known:gateway-link-removed-index-regress") && rec.IsKnown(verifC06KeyGatewayLink) {
-				t.Logf("witness %s no longer reproduces %s", name, verifC06KeyGatewayLink)
-				c.Label("witness-no-longer-reproduces")
+			verifC06Run(t, c, feed(ws[name].ops))
+			if !c.HasLabel("known:" + strings.TrimPrefix(ws[name].key, "C06/")) {
+				// the finding no longer reproduces (fixed tree, or a `fixed` entry): visible in the evidence, not a failure
+				t.Logf("witness %s no longer reproduces %s", name, ws[name].key)
+				c.Label("witness-no-longer-reproduces:" + name)
 			}
 			c.Done()
 		}
